@@ -140,6 +140,13 @@ func init() {
 			run.Violation("C03", "gossip-round-skips-peer-class", p, map[string]any{"engine": "E1-round", "problem": p})
 		}
 		run.Set("gossip_round_cases", cases)
+		// what E1 cannot reach (the receive loop and the sockets): real gossip.New
+		// instances on loopback (real_nodes.go)
+		rn, rfails := realNodeScenarios()
+		for _, f := range rfails {
+			run.Violation("C03", f[0], f[1], map[string]any{"engine": "real-nodes", "scenario": f[0]})
+		}
+		run.Set("real_node_scenarios", rn)
 		run.Assume("fair orders enumerated by the closure: all ordered pairs per round, rotated and reversed between rounds, digest order rotated; not every fair schedule")
 		return run.Finish()
 	})
